@@ -56,7 +56,10 @@ pub fn generate(prop: &str, tier: Tier, seed: u64, run: u64) -> Trace {
         }
         "C01" => crate::gen_term::gen_term("C01", &mut rng, run, thorough),
         "C09" => crate::gen_term::gen_term("C09", &mut rng, run, thorough),
+        "C10" if run % 4 == 3 => crate::gen_load::gen_load("C10", &mut rng, run, thorough),
         "C10" => crate::gen_term::gen_term("C10", &mut rng, run, thorough),
+        "C02" => crate::gen_load::gen_load("C02", &mut rng, run, thorough),
+        "C03" if run % 4 == 3 => crate::gen_load::gen_load("C03", &mut rng, run, thorough),
         "C16" => crate::gen_term::gen_term("C16", &mut rng, run, thorough),
         "C03" => crate::gen_term::gen_c03(&mut rng, run, thorough),
         _ => Trace::new(prop, "none"),
@@ -70,6 +73,7 @@ pub fn execute(trace: &Trace) -> Outcome {
     let mut out = match trace.scenario.as_str() {
         "term" => crate::term::run_term(trace),
         "sixel_direct" => run_sixel_direct(trace),
+        "load" => crate::exec_load::run_load(trace),
         other => Outcome {
             violation: None,
             ended: format!("harness_error:unknown scenario {other}"),
